@@ -9,7 +9,7 @@ import (
 //   enum E; message M {f1 T1 1; f2 T2 2}; message N; struct S {g T3}; struct S2 {h T4};
 //   service Svc { call(N) (<-C1, C2->) N }
 // whose type positions T1..T4, C1, C2 are symbolic choices over {int32, string, E, M, N, S, S2, Svc,
-// an undeclared name}, each optionally a list (fields only), and whose second field name may repeat
+// an undeclared name, any, message, bytes, a subservice}, each optionally a list (fields only), and whose second field name may repeat
 // the first. The real model pipeline (parse, resolve, compile, validate) decides; if it ACCEPTS, no
 // rule of the language named by the property may be broken (the generator would emit code the Go
 // compiler rejects): unknown or service-typed field and element types, self-containing structs,
@@ -25,6 +25,10 @@ const (
 	zzTStructS2
 	zzTService
 	zzTUnknown
+	zzTAny
+	zzTAnyMessage
+	zzTBytes
+	zzTSubservice
 	zzTKinds
 )
 
@@ -39,8 +43,14 @@ func zzSyntaxType(base int) *syntax.Type {
 		return &syntax.Type{Kind: syntax.KindInt32}
 	case zzTString:
 		return &syntax.Type{Kind: syntax.KindString}
+	case zzTAny:
+		return &syntax.Type{Kind: syntax.KindAny}
+	case zzTAnyMessage:
+		return &syntax.Type{Kind: syntax.KindAnyMessage}
+	case zzTBytes:
+		return &syntax.Type{Kind: syntax.KindBytes}
 	}
-	name := map[int]string{zzTEnum: "E", zzTMsgM: "M", zzTMsgN: "N", zzTStructS: "S", zzTStructS2: "S2", zzTService: "Svc", zzTUnknown: "Nowhere"}[base]
+	name := map[int]string{zzTEnum: "E", zzTMsgM: "M", zzTMsgN: "N", zzTStructS: "S", zzTStructS2: "S2", zzTService: "Svc", zzTUnknown: "Nowhere", zzTSubservice: "Sub"}[base]
 	return &syntax.Type{Kind: syntax.KindReference, Name: name}
 }
 
@@ -77,6 +87,22 @@ func ZZ_C14_Schema() {
 	method2 := "other"
 	// PART 4: the file's import and the name of the second message
 	imp, nameN := 0, "N"
+	// PART 5: names of a second service and its method with inline input fields: the request
+	// message generated for it is named <Service><Method>Request and must not clash with the one
+	// generated for Svc2.ab_c (Svc2AbCRequest) or with a declared message
+	svc2, meth2 := "Other", "d"
+	switch part {
+	case 5:
+		if zzverif.Bool() {
+			svc2 = "Svc2Ab"
+		}
+		if zzverif.Bool() {
+			meth2 = "c"
+		}
+		if zzverif.Bool() {
+			nameN = "OtherDRequest" // a declared message with the name of a generated one
+		}
+	}
 	switch part {
 	case 3:
 		var ti, to *syntax.Type
@@ -129,6 +155,15 @@ func ZZ_C14_Schema() {
 	case 2:
 		imports = []*syntax.Import{{ID: "nowhere/at/all"}}
 	}
+	inline := func() syntax.Fields {
+		return syntax.Fields{{Name: "x", Tag: 1, Type: zzSyntaxType(zzTInt32)}}
+	}
+	if part == 5 {
+		refN = zzTMsgM
+		ch1, cc1 = zzSyntaxType(zzTMsgM), zzTypeChoice{base: zzTMsgM}
+		in, out = zzSyntaxType(zzTMsgM), zzSyntaxType(zzTMsgM)
+		cin, cout = zzTypeChoice{base: zzTMsgM}, zzTypeChoice{base: zzTMsgM}
+	}
 	file := &syntax.File{
 		Path:    "a.spec",
 		Imports: imports,
@@ -145,7 +180,16 @@ func ZZ_C14_Schema() {
 			{Type: syntax.DefinitionService, Name: "Svc", Service: &syntax.Service{Methods: []*syntax.Method{
 				{Name: "call", Input: in, Output: out, Oneway: oneway, Channel: channel},
 				{Name: method2, Input: zzSyntaxType(refN), Output: zzSyntaxType(refN)}}}},
+			{Type: syntax.DefinitionService, Name: "Sub", Service: &syntax.Service{Sub: true, Methods: []*syntax.Method{
+				{Name: "ping", Input: zzSyntaxType(zzTMsgM), Output: zzSyntaxType(zzTMsgM)}}}},
 		},
+	}
+	if part == 5 {
+		file.Definitions = append(file.Definitions,
+			&syntax.Definition{Type: syntax.DefinitionService, Name: "Svc2", Service: &syntax.Service{Methods: []*syntax.Method{
+				{Name: "ab_c", Input: inline()}}}},
+			&syntax.Definition{Type: syntax.DefinitionService, Name: svc2, Service: &syntax.Service{Methods: []*syntax.Method{
+				{Name: meth2, Input: inline()}}}})
 	}
 	x := NewContext(nil, nil)
 	_, err := x.compileFiles("pkg", "pkg", []*syntax.File{file})
@@ -156,12 +200,13 @@ func ZZ_C14_Schema() {
 	zzverif.Reach("accepted")
 	for _, c := range []zzTypeChoice{c1, c2, c3, c4} {
 		zzverif.Assert(c.base != zzTUnknown, "unknown field or element type accepted")
-		zzverif.Assert(c.base != zzTService, "service-typed field or list element accepted")
+		zzverif.Assert(c.base != zzTService && c.base != zzTSubservice, "service-typed field or list element accepted")
 	}
 	zzverif.Assert(name2 != "f1", "duplicate field name accepted")
 	// structs: value types or other structs only, never containing themselves
 	for _, c := range []zzTypeChoice{c3, c4} {
 		zzverif.Assert(!c.list && c.base != zzTMsgM && c.base != zzTMsgN, "non-value struct field accepted")
+		zzverif.Assert(c.base != zzTAny && c.base != zzTAnyMessage, "dynamic (any / message) struct field accepted")
 	}
 	zzverif.Assert(c3.base != zzTStructS, "struct containing itself accepted")
 	zzverif.Assert(c4.base != zzTStructS2, "struct containing itself accepted")
@@ -177,16 +222,21 @@ func ZZ_C14_Schema() {
 		zzverif.Assert(isMsg(cin), "method input that is not a message accepted")
 	}
 	if hasOut {
-		zzverif.Assert(isMsg(cout) || cout.base == zzTService, "method output that is neither a message nor a service accepted")
+		zzverif.Assert(isMsg(cout) || cout.base == zzTSubservice, "method output that is neither a message nor a subservice accepted")
 	}
 	if oneway {
 		zzverif.Assert(!hasOut && !withChannel, "oneway method with a response, subservice or channel accepted")
 	}
-	if hasOut && cout.base == zzTService {
+	if hasOut && cout.base == zzTSubservice {
 		zzverif.Assert(!withChannel, "method returning a subservice with a channel accepted")
 	}
 	zzverif.Assert(method2 != "call", "duplicate method name accepted")
 	// imports and definition names
 	zzverif.Assert(imp == 0, "circular or missing import accepted")
 	zzverif.Assert(nameN != "M", "duplicate definition name accepted")
+	if part == 5 {
+		// Svc2.ab_c generates Svc2AbCRequest; <svc2>.<meth2> generates <svc2><Meth2>Request
+		zzverif.Assert(!(svc2 == "Svc2Ab" && meth2 == "c"), "two generated request messages with one name accepted")
+		zzverif.Assert(!(nameN == "OtherDRequest" && svc2 == "Other" && meth2 == "d"), "declared message with the name of a generated request accepted")
+	}
 }
